@@ -93,7 +93,11 @@ func genConnections(t *rapid.T) (string, string) {
 }
 
 func genRoute(t *rapid.T, hid string, post bool) C07Msg {
-	origin := rapid.SampledFrom([]string{hid, hid, "p1", "p1", "p2", "p3", "sut", "w", "w2", "", "localhost"}).Draw(t, "origin")
+	// Origins never include the two well-behaved peers: routing updates are unauthenticated by design, so a forged update
+	// "from w2" with a huge epoch makes every node that hears it ignore the real w2 for good. That is a property of the
+	// flooding protocol (trust in admitted peers), not a crash or wedge of the receiving node, and C07 does not claim
+	// otherwise; the liveness probes use w and w2, so their identities are left alone (see DESIGN.md, C07 false alarm).
+	origin := rapid.SampledFrom([]string{hid, hid, "p1", "p1", "p2", "p3", "sut", "", "localhost"}).Draw(t, "origin")
 	conns, cclass := genConnections(t)
 	if origin == hid && (cclass == "conn-empty" || cclass == "conn-wrong-type") && rapid.Bool().Draw(t, "keepadmissible") {
 		conns, cclass = `{"sut":1,"p1":1}`, "conn-plain"
@@ -269,7 +273,7 @@ func genMsgs(t *rapid.T, hid string, post bool, frame bool, n int) []C07Msg {
 
 func genC07(t *rapid.T) C07Scn {
 	s := C07Scn{Transport: rapid.SampledFrom([]string{"mem", "mem", "frame"}).Draw(t, "transport"),
-		Handshake: rapid.SampledFrom([]string{"valid", "valid", "valid", "valid", "as-w2", "none"}).Draw(t, "handshake")}
+		Handshake: rapid.SampledFrom([]string{"valid", "valid", "valid", "valid", "none"}).Draw(t, "handshake")}
 	if s.Transport == "frame" {
 		s.Chunks = rapid.SliceOfN(rapid.SampledFrom([]int{1, 1, 2, 3, 7, 36, 37, 100, 4096, 65536}), 1, 5).Draw(t, "chunks")
 	}
